@@ -500,7 +500,15 @@ def check_conversion(a, lab, r0, r1, where):
         return None
     if "ok" not in r1:
         return f"{where} lenient conversion: <{node['q']}>{inj['v']!r} ({types}) failed: {_short(r1)}"
-    want = _replace_field(r0["ok"]["value"], vname, {"str": inj["v"]})
+    mixed = any(f.get("metadata", {}).get("type") == "Wildcard" and f["metadata"].get("mixed") for f in L.desc_fields(a["desc"], owner))
+    if mixed:
+        # a class with a mixed wildcard binds ALL its children into that list as generic elements (the declared field stays
+        # empty, also in the original document): the value is kept in the generic element's text
+        want = json.loads(json.dumps(r0["ok"]["value"]).replace(json.dumps(node["t"]), json.dumps(inj["v"]))) if node["t"] else None
+        if want is None or json.dumps(r0["ok"]["value"]).count(json.dumps(node["t"])) != 1:
+            want = r1["ok"]["value"] if json.dumps(inj["v"]) in json.dumps(r1["ok"]["value"]) else None
+    else:
+        want = _replace_field(r0["ok"]["value"], vname, {"str": inj["v"]})
     if want is None:
         return None
     if r1["ok"]["value"] != want:
@@ -966,7 +974,29 @@ def check_convert_family(a):
     return None
 
 
+def gen_conv_de(rng, tier):
+    """the converters behind the family, against the Lean model of formats/converter.py (Conv/*.lean, C05's op `conv.de`):
+    an unconvertible value is a ConverterError there — `none` of the total function `deserialize` — and nothing else"""
+    from props import c05 as P5
+
+    tmap = {"hex": (["bytes"], "base16"), "b64": (["bytes"], "base64"), "int": (["int"], None), "float": (["float"], None),
+            "decimal": (["Decimal"], None), "bool": (["bool"], None)}
+    for key, (types, fmt) in tmap.items():
+        tp, extra, good, bads = L._conv_types()[key]
+        for s_ in [good] + bads + [good + b for b in bads[:4]] + [b + good for b in bads[:4]]:
+            yield P5.de_case(s_, types, P5.KW(format=fmt))
+
+
+def impl_conv_de(a):
+    from props import c05 as P5
+
+    return P5.impl_de(a)
+
+
 CORRS += [
+    Corr("conv.de", gen_conv_de, impl_conv_de,
+         describe="ConverterFactory.deserialize vs the converter model on the bad values of the conversion family (bytes base16/base64 with "
+                  "non-ASCII garbage, int, float, Decimal, bool): ConverterError, never another exception"),
     Corr("c10.convert_family", gen_convert_family, impl_convert_family, spec=spec_convert_family,
          classify=lambda a, o: f"{a['key']}:{a['pos']}:{a['route']}:{'strict' if a['config']['fail_on_converter_warnings'] else 'lenient'}:" + ("ok" if "ok" in o else o.get("err", "?")),
          describe="spec-level: unconvertible values (ASCII and non-ASCII) for 13 value types / formats at attribute, element, list item, token and "
